@@ -1,7 +1,9 @@
 ---------------------------- MODULE MC_Parallel ----------------------------
 (* Model-checking instances of Parallel (C23).
    PSpec    all interleavings of the protocol steps (MaxPre <- Unbounded) or those with at most
-            MaxPre preemptions; with the structural invariants TypeOK and LockSound.
+            MaxPre preemptions; with the structural invariants TypeOK, LockSound, MutexSound and -
+            for the repaired protocol (Mutex = LockedInit = TRUE): the design verification - the
+            four property invariants.
    CutSpec  the same, not continued beyond a state that violates the property.  Run with
             `-continue -workers 1` and INVARIANT NewClass, TLC reports, breadth first, the
             shortest interleaving for every class <<violated invariants, last step, phase of
@@ -18,6 +20,6 @@ NewClass == LET c == <<Violated, last.a, IF last.p = None THEN "-" ELSE loc[last
 (* participants are interchangeable: as a CONSTRAINT, lets them take their first step in the order
    p1, p2, p3 only (a symmetry reduction that loses no class) *)
 Idx(p) == CHOOSE i \in 1 .. 3 : <<"p1", "p2", "p3">>[i] = p
-StartOrder == \A p, q \in Procs : (Idx(p) < Idx(q) /\ loc[p].pc = "mkdtemp") => loc[q].pc = "mkdtemp"
+StartOrder == \A p, q \in Procs : (Idx(p) < Idx(q) /\ loc[p].ph = "idle") => loc[q].ph = "idle"
 Alias == [last |-> last, viol |-> Violated, ph |-> IF last.p = None THEN "-" ELSE loc[last.p].ph]
 =============================================================================
